@@ -361,7 +361,12 @@ func (a *aofRun) crashInConc(phaseStart map[string]string, groups []concGroup, r
 	a.states = []map[string]string{a.dump()}
 	a.syncedUp = 0
 	a.concWriters = false
-	a.rewriteCrashSite, a.crashSites = "", nil
+	// no rewrite has COMPLETED: what an earlier interrupted rewrite left on disk is still there, and this one was
+	// interrupted too
+	if site != "" {
+		a.crashSites = append(a.crashSites, site)
+		a.rewriteCrashSite = blameSite(a.crashSites)
+	}
 	return true
 }
 
